@@ -618,6 +618,33 @@ pub fn goldens() -> Vec<Golden> {
         vec![],
     ));
     v.push(admin(
+        "lending_pool_add_bank_permissionless",
+        Role::Anyone,
+        Box::new(|e| {
+            let mut s = e.s.clone();
+            world::forge_single_pool(&mut s, "G", &e.w.banks[1].mint, 5_000_000_000_000);
+            s
+        }),
+        Box::new(|e, s, sg| {
+            let pool = world::key("singlepool:G");
+            let (mint, sol_pool) = ix::single_pool_keys(&pool);
+            let st: marginfi_type_crate::types::StakedSettings = crate::world::read_pod(s.data(&ix::staked_settings_key(&e.w.group)));
+            let (_k, i) = ix::add_bank_permissionless(e.w.group, sg, pool, 5, vec![ix::ro(st.oracle), ix::ro(mint), ix::ro(sol_pool)]);
+            one_ix(i, &[sg])
+        }),
+        vec![],
+    ));
+    v.push(admin(
+        "marginfi_group_initialize",
+        Role::Anyone,
+        Box::new(base),
+        Box::new(|_e, _s, sg| {
+            let g = world::key("G:fresh-group");
+            one_ix(ix::group_initialize(g, sg), &[sg, g])
+        }),
+        vec![],
+    ));
+    v.push(admin(
         "lending_pool_handle_bankruptcy",
         Role::AdminOrRisk,
         Box::new(bankrupt),
